@@ -65,6 +65,10 @@ def g_pool(draw):
         # weights as a person writes them: two decimals
         wk = np.round(wk, 2)
         wk[-1] = round(1.0 - float(wk[:-1].sum()), 2)
+    elif gen.boolean(draw):
+        # weights whose float sum is one ulp away from 1 (every normalisation by a float total can leave that)
+        wk[0] = np.nextafter(wk[0], 0.0)
+        wk[-1] = np.nextafter(wk[-1], 0.0)
     c["w_k"] = wk
     c["prior_far"] = gen.integer(draw, 0, C - 1) if (C >= 2 and gen.choice(draw, [True, True, True, False])) else None
     fa = sut.fa_ref(c)
